@@ -45,6 +45,9 @@ C20_RowsSound(o) == AllQ(o, LAMBDA q : q.alien = 0 /\ q.dup_rows = 0 /\ q.outsid
 C20_RowsCompleteOnCleanEnd(o) ==
   AllQ(o, LAMBDA q : (OwnEnd(q) /\ q.err_at_false = "nil" /\ q.injected = 0 /\ o.sc.corrupt = "") => q.missing = 0)
 C20_NoPanic(o) == o.panic = ""
+\* C03 (seen from the cursor's side): rows the consumer holds on to still say what they said at delivery, after Close / cancel and
+\* after a later query has scanned the same blocks
+C03_KeptRowsIntact(o) == AllQ(o, LAMBDA q : q.kept_changed = 0)
 
 (***************************************************************************)
 (* C21                                                                     *)
@@ -83,7 +86,7 @@ Props(o) ==
     C20_CorruptionReported |-> C20_CorruptionReported(o), C20_CloseReturnsNil |-> C20_CloseReturnsNil(o),
     C20_CloseDecisionStands |-> C20_CloseDecisionStands(o),
     C20_DecidedOnce |-> C20_DecidedOnce(o), C20_RowsSound |-> C20_RowsSound(o),
-    C20_RowsCompleteOnCleanEnd |-> C20_RowsCompleteOnCleanEnd(o), C20_NoPanic |-> C20_NoPanic(o),
+    C20_RowsCompleteOnCleanEnd |-> C20_RowsCompleteOnCleanEnd(o), C20_NoPanic |-> C20_NoPanic(o), C03_KeptRowsIntact |-> C03_KeptRowsIntact(o),
     C21_EveryHandleClosedOnce |-> C21_EveryHandleClosedOnce(o), C21_NoUseAfterClose |-> C21_NoUseAfterClose(o),
     C21_NoSharedHandle |-> C21_NoSharedHandle(o), C21_IteratorReturned |-> C21_IteratorReturned(o),
     C21_NoWorkerAlive |-> C21_NoWorkerAlive(o), C21_BudgetRestored |-> C21_BudgetRestored(o),
